@@ -28,6 +28,12 @@
 (*                          thread id + call name), not the submission: the    *)
 (*                          late completion of an abandoned submission fills   *)
 (*                          the caller's next call                             *)
+(*  "sq_concurrent_push"    the ring's submission queue has one producer side, *)
+(*                          but every calling thread pushes into it: read the  *)
+(*                          tail, write the entry and the new tail are two     *)
+(*                          steps, so two threads can write the same slot and  *)
+(*                          one submission never reaches the kernel (the code  *)
+(*                          before 93ec71c)                                    *)
 (*  "token_ignores_thread"  thread callers of the same call share one token    *)
 (*                          (seeded/C27)                                       *)
 EXTENDS Naturals, Sequences, FiniteSets, TLC
@@ -40,21 +46,26 @@ VARIABLES pc,      \* [Callers -> "idle" | "submitted" | "slotted" | "waiting"]
           ncall,   \* [Callers -> calls started]
           cursid,  \* [Callers -> number of the submission of the call in progress]
           nxt,     \* next submission number
-          kernel,  \* submissions the kernel is working on: set of [sid, tok]
+          kernel,  \* submissions the kernel is working on (or that sit in the submission queue): set of [sid, tok, idx]
+          sqtail,  \* tail of the submission queue (index of the next entry)
+          sqseen,  \* [Callers -> tail value a thread has read for the push it is making]
           cq,      \* completion queue: Seq([sid, tok])
           table,   \* the wait table: set of [tok, caller, sid]  (at most one entry per token)
           arc,     \* [submission number of a call -> 0 | result]  the result cell that call made for itself
           got,     \* [Callers -> Seq(result)] what the calls returned (0 = gave up on a timeout)
           viol
-vars == <<pc, ncall, cursid, nxt, kernel, cq, table, arc, got, viol>>
+vars == <<pc, ncall, cursid, nxt, kernel, sqtail, sqseen, cq, table, arc, got, viol>>
 
 Tok(c, sid) == IF Dev("token_per_caller") \/ Dev("token_ignores_thread")
                THEN (IF Dev("token_ignores_thread") /\ c \in Threads THEN "thread" ELSE c)
                ELSE sid
 Slot(tok) == {e \in table : e.tok = tok}
+\* the queue index only matters when pushes can collide
+NextIdx == IF Dev("sq_concurrent_push") THEN sqtail ELSE 0
+Bump == IF Dev("sq_concurrent_push") THEN sqtail + 1 ELSE sqtail
 
 Init == /\ pc = [c \in Callers |-> "idle"] /\ ncall = [c \in Callers |-> 0] /\ cursid = [c \in Callers |-> 0]
-        /\ nxt = 1 /\ kernel = {} /\ cq = <<>> /\ table = {} /\ arc = <<>>
+        /\ nxt = 1 /\ kernel = {} /\ sqtail = 1 /\ sqseen = [c \in Callers |-> 0] /\ cq = <<>> /\ table = {} /\ arc = <<>>
         /\ got = [c \in Callers |-> <<>>] /\ viol = "none"
 Go == viol = "none"
 
@@ -69,7 +80,7 @@ Begin(c) ==
   /\ arc' = Append(arc, 0)            \* the cell of submission number nxt (arc is indexed by submission number)
   /\ IF Dev("submit_before_insert")
      THEN \* submit first
-          /\ kernel' = kernel \cup {[sid |-> nxt, tok |-> Tok(c, nxt)]}
+          /\ kernel' = kernel \cup {[sid |-> nxt, tok |-> Tok(c, nxt), idx |-> NextIdx]} /\ sqtail' = Bump
           /\ IF c \in Cos
              THEN /\ viol' = IF Occupied(c, nxt) THEN "slot_occupied" ELSE viol
                   /\ table' = MakeSlot(c, nxt, table) /\ pc' = [pc EXCEPT ![c] = "waiting"]
@@ -78,22 +89,35 @@ Begin(c) ==
           /\ viol' = IF Occupied(c, nxt) THEN "slot_occupied" ELSE viol
           /\ table' = MakeSlot(c, nxt, table)
           /\ IF c \in Cos
-             THEN /\ kernel' = kernel \cup {[sid |-> nxt, tok |-> Tok(c, nxt)]} /\ pc' = [pc EXCEPT ![c] = "waiting"]
-             ELSE /\ pc' = [pc EXCEPT ![c] = "slotted"] /\ UNCHANGED kernel
-  /\ UNCHANGED <<cq, got>>
+             THEN /\ kernel' = kernel \cup {[sid |-> nxt, tok |-> Tok(c, nxt), idx |-> NextIdx]} /\ sqtail' = Bump /\ pc' = [pc EXCEPT ![c] = "waiting"]
+             ELSE /\ pc' = [pc EXCEPT ![c] = "slotted"] /\ UNCHANGED <<kernel, sqtail>>
+  /\ UNCHANGED <<cq, got, sqseen>>
 \* a thread's second step
 Second(c) ==
   /\ Go /\ c \in Threads /\ pc[c] \in {"submitted", "slotted"}
   /\ IF pc[c] = "submitted"
      THEN /\ viol' = IF Occupied(c, cursid[c]) THEN "slot_occupied" ELSE viol
-          /\ table' = MakeSlot(c, cursid[c], table) /\ UNCHANGED kernel
-     ELSE /\ kernel' = kernel \cup {[sid |-> cursid[c], tok |-> Tok(c, cursid[c])]} /\ UNCHANGED <<table, viol>>
-  /\ pc' = [pc EXCEPT ![c] = "waiting"]
+          /\ table' = MakeSlot(c, cursid[c], table) /\ pc' = [pc EXCEPT ![c] = "waiting"]
+          /\ UNCHANGED <<kernel, sqtail, sqseen>>
+     ELSE IF Dev("sq_concurrent_push")
+          THEN \* first half of the push: read the tail
+               /\ sqseen' = [sqseen EXCEPT ![c] = sqtail] /\ pc' = [pc EXCEPT ![c] = "pushing"]
+               /\ UNCHANGED <<kernel, sqtail, table, viol>>
+          ELSE /\ kernel' = kernel \cup {[sid |-> cursid[c], tok |-> Tok(c, cursid[c]), idx |-> NextIdx]}
+               /\ sqtail' = Bump /\ pc' = [pc EXCEPT ![c] = "waiting"]
+               /\ UNCHANGED <<table, viol, sqseen>>
   /\ UNCHANGED <<ncall, cursid, nxt, cq, arc, got>>
+\* second half of an unsynchronised push: write the entry where the tail was, publish tail + 1
+\* (an entry another thread wrote there meanwhile, and that the kernel has not taken yet, is gone)
+PushStore(c) ==
+  /\ Go /\ pc[c] = "pushing"
+  /\ kernel' = {x \in kernel : x.idx # sqseen[c]} \cup {[sid |-> cursid[c], tok |-> Tok(c, cursid[c]), idx |-> sqseen[c]]}
+  /\ sqtail' = sqseen[c] + 1 /\ pc' = [pc EXCEPT ![c] = "waiting"]
+  /\ UNCHANGED <<ncall, cursid, nxt, sqseen, cq, table, arc, got, viol>>
 \* the kernel finishes a submission
 Complete(s) ==
   /\ Go /\ s \in kernel /\ kernel' = kernel \ {s} /\ cq' = Append(cq, s)
-  /\ UNCHANGED <<pc, ncall, cursid, nxt, table, arc, got, viol>>
+  /\ UNCHANGED <<pc, ncall, cursid, nxt, sqtail, sqseen, table, arc, got, viol>>
 \* the loop thread reaps one completion: remove the slot of its token, fill the cell it points at
 \* (not while a thread ... the loop only runs between coroutine steps, which Begin models as atomic)
 Reap ==
@@ -104,23 +128,23 @@ Reap ==
         ELSE LET e == CHOOSE x \in slot : TRUE IN
              /\ arc' = [arc EXCEPT ![e.sid] = s.sid]
              /\ viol' = IF e.sid # s.sid THEN "misdelivery" ELSE viol
-  /\ UNCHANGED <<pc, ncall, cursid, nxt, kernel, got>>
+  /\ UNCHANGED <<pc, ncall, cursid, nxt, kernel, sqtail, sqseen, got>>
 \* the caller wakes up with a result in its cell
 Take(c) ==
   /\ Go /\ pc[c] = "waiting" /\ arc[cursid[c]] # 0
   /\ got' = [got EXCEPT ![c] = Append(@, arc[cursid[c]])]
   /\ viol' = IF arc[cursid[c]] # cursid[c] THEN "wrong_result" ELSE viol
   /\ pc' = [pc EXCEPT ![c] = "idle"]
-  /\ UNCHANGED <<ncall, cursid, nxt, kernel, cq, table, arc>>
+  /\ UNCHANGED <<ncall, cursid, nxt, kernel, sqtail, sqseen, cq, table, arc>>
 \* a coroutine's read / write runs into its time limit before the completion arrived
 GiveUp(c) ==
   /\ Go /\ c \in Cos /\ pc[c] = "waiting" /\ arc[cursid[c]] = 0
   /\ got' = [got EXCEPT ![c] = Append(@, 0)]
   /\ table' = IF Dev("timeout_keeps_slot") THEN table ELSE {e \in table : e.caller # c}
   /\ pc' = [pc EXCEPT ![c] = "idle"]
-  /\ UNCHANGED <<ncall, cursid, nxt, kernel, cq, arc, viol>>
+  /\ UNCHANGED <<ncall, cursid, nxt, kernel, sqtail, sqseen, cq, arc, viol>>
 
-Next == \/ \E c \in Callers : Begin(c) \/ Second(c) \/ Take(c) \/ GiveUp(c)
+Next == \/ \E c \in Callers : Begin(c) \/ Second(c) \/ PushStore(c) \/ Take(c) \/ GiveUp(c)
         \/ \E s \in kernel : Complete(s)
         \/ Reap
 Spec == Init /\ [][Next]_vars /\ WF_vars(Next)
